@@ -54,7 +54,7 @@ class HistoryProp(Prop):
         ops = case['ops']
         lockstep = bool(case.get('lockstep_threads'))
         n, robs, iobs, failure, ref = H.run_history(ops, self.ref_steps, skip_undecided=self.skip_undecided, track_fresh=self.track_fresh,
-                                                    impl_world=H.ThreadedImplWorld if lockstep else H.FileLoadImplWorld if case.get('load_route') == 'file' else (H.OwnAtomsImplWorld if case.get('cached_atoms') == 'own' else H.CachedAtomsImplWorld) if case.get('cached_atoms') else None)
+                                                    impl_world=H.ThreadedImplWorld if lockstep else H.SharedFileLoadImplWorld if case.get('load_route') == 'shared-file' else H.FileLoadImplWorld if case.get('load_route') == 'file' else (H.OwnAtomsImplWorld if case.get('cached_atoms') == 'own' else H.CachedAtomsImplWorld) if case.get('cached_atoms') else None)
         if failure is not None:
             kind, i, op, r, o = failure
             if lockstep:
@@ -73,6 +73,8 @@ class HistoryProp(Prop):
             classes = list(classes) + ['lockstep-threads(one thread per engine)']
         if case.get('load_route') == 'file':
             classes = list(classes) + ['scripts-loaded-through-load_script_from_file']
+        if case.get('load_route') == 'shared-file':
+            classes = list(classes) + ['scripts-loaded-through-load_script_from_file(one path for all engines)']
         if case.get('cached_atoms'):
             classes = list(classes) + ['atom-objects-kept-across-clear']
         return OK(nt, sorted(set(classes)))
